@@ -592,3 +592,38 @@ func vH_C10_hist() {
 	h.checkAll("after-churn")
 	vCover("done")
 }
+
+// C12: SetCollection on an existing name installs the NEW comparator (nil =
+// bytes.Compare) and keeps the items.
+func vH_C12_cmp() {
+	s, _ := vNewStore(vParam("store") == 1)
+	c := s.SetCollection("a", vReverseCompare)
+	first := vBytes("k0", 1)
+	v0 := vBytes("v0", 1)
+	vAssert("set0", c.SetItem(&Item{Key: first, Val: v0, Priority: 9}) == nil)
+	var newCmp KeyCompare
+	want := vCmpDefault
+	switch vChoose("new-comparator", 0, 2) {
+	case 0:
+		vTrace("SetCollection(existing,nil)")
+	case 1:
+		vTrace("SetCollection(existing,bytes.Compare)")
+		newCmp = vCmpDefault
+	case 2:
+		vTrace("SetCollection(existing,reverse)")
+		newCmp, want = vReverseCompare, vReverseCompare
+	}
+	c2 := s.SetCollection("a", newCmp)
+	vAssert("setcoll-nonnil", c2 != nil)
+	m := &vModel{cmp: want}
+	m.set(first, v0, 9)
+	for i := 0; i < 2; i++ {
+		k, v := vBytes(vName("k", i+1), 1), vBytes(vName("v", i+1), 1)
+		p := vInt32(vName("p", i+1))
+		vAssume(p >= 0)
+		vAssert("set", c2.SetItem(&Item{Key: k, Val: v, Priority: p}) == nil)
+		m.set(k, v, p)
+	}
+	vCheckColl("after-comparator-change", c2, m)
+	vCover("done")
+}
